@@ -795,7 +795,8 @@ def admission():
     V6 = dict(name="p6", remote="2001:db8::2", remoteAS=65006, localAddr="2001:db8::1")
     srcs = {"A": "10.0.0.2:1000", "B": "10.0.0.3:1000", "stranger": "10.0.0.66:1000",
             "v6": "[2001:db8::2]:1000", "v6stranger": "[2001:db8::66]:1000", "mapped": "[::ffff:10.0.0.2]:1000"}
-    dsts = {"cfg": "10.0.0.1:179", "other": "10.0.0.77:179", "v6cfg": "[2001:db8::1]:179", "v6other": "[2001:db8::7]:179"}
+    dsts = {"cfg": "10.0.0.1:179", "other": "10.0.0.77:179", "v6cfg": "[2001:db8::1]:179", "v6other": "[2001:db8::7]:179",
+            "prefix2": "10.0.0.11:179", "prefix3": "10.0.0.100:179", "v6prefix": "[2001:db8::11]:179"}
     for passive in (False, True):
         for sn, src in srcs.items():
             for dn, dst in dsts.items():
@@ -1206,6 +1207,14 @@ def damping_exact():
     run("amnesia-minus", plan)
     plan = [("err", 3)] + held(60) + [("wait", sec(240)), ("err", 3)] + held(60) + [("cease",)]
     run("amnesia-exact", plan)
+    # the amnesia clock runs from the PREVIOUS error (not from the first of a streak, not from the end of a hold-down)
+    plan = [("err", 3)] + held(60) + [("wait", sec(140)), ("err", 3)] + held(120) + [("wait", sec(80)), ("err", 3)] + held(240) + [("cease",)]
+    run("streak-0-200-400", plan)
+    plan = [("err", 3)] + held(60) + [("wait", sec(270)), ("err", 3)] + held(60) + [("cease",)]
+    run("gap-330", plan)
+    plan = [("err", 3)] + held(60) + [("wait", sec(239)), ("err", 3)] + held(120) + [("wait", sec(179)), ("err", 2)] + held(240) + \
+           [("wait", sec(59)), ("err", 2)] + held(300) + [("err", 2)] + held(60) + [("cease",)]
+    run("ladder-299", plan)
     # a Cease or TCP fault between two protocol errors neither resets nor extends anything
     for mid in ("cease", "eof"):
         plan = [("err", 3)] + held(60) + [("wait", sec(100)), (mid,), ("wait", sec(150)), ("err", 3)] + held(60) + [("cease",)]
@@ -1366,6 +1375,13 @@ def api_races():
                              step("deletePeer", peer="p2"), Y, relc()))
         b.adv(6).add("listPeers")
         out.append(b.tag("stop", "apirace").build())
+        # two DeletePeer calls for the same key overlap: exactly one succeeds
+        b = Sb("race-del-del-%s" % d, two(gates=["OnClose#1"]))
+        b.start()
+        c = b.establish("p1", d)
+        b.steps.append(multi(step("deletePeer", peer="p1"), Y, step("deletePeer", peer="p1"), Y, relc()))
+        b.adv(6).add("listPeers").add("addPeer", peer="p1").adv(1)
+        out.append(b.tag("stop", "apirace").build())
     # a listener whose Close takes a while: the server is closing but still serving
     for what in ("add", "add-del", "del", "add-conn"):
         b = Sb("race-lisclose-%s" % what, two())
@@ -1479,9 +1495,14 @@ def damping_matrix():
                 b.advu(sec(60) - 1 - (sec(9) if kn == "holdexp" else 0))
                 b.connect()
                 b.advu(1)
-                c3 = b.connect()
-                b.open(c3, hold=9).ka(c3).adv(1)
-                out.append(b.tag("damp" if "cease" not in kn and kn not in ("eof", "reset") else "nodamp", "matrix").build())
+                damps = "cease" not in kn and kn not in ("eof", "reset")
+                if damps and (len(out) % 2 == 0):
+                    # recover over the OUTBOUND connection: the dial that starts when the hold-down ends
+                    c3 = b.dial_ok()
+                else:
+                    c3 = b.connect()
+                b.open(c3, hold=9).ka(c3).upd(c3).adv(1)
+                out.append(b.tag("damp" if damps else "nodamp", "matrix").build())
     return out
 
 
@@ -1531,4 +1552,138 @@ def multi_listener():
                     b.add("connect", conn=c, src="10.0.0.2:41000", dst=dst, lis=li)
                     b.open(c, "pa").ka(c).upd(c0).adv(1)
                     out.append(b.tag("adm", "mlis").build())
+    return out
+
+
+def two_sessions(rnd=None):
+    """Several sessions on the SAME outbound FSM object (it survives non-damping endings): nothing of an
+    earlier session may leak into a later one (hold time, keepalive interval, buffers, writers, callbacks)."""
+    out = []
+    ends = {"cease": lambda b, c: b.notif(c, 6, 0), "eof": lambda b, c: b.rclose(c), "reset": lambda b, c: b.rreset(c)}
+    holds = [(90, 9, 0), (90, 3, 30), (90, 30, 3), (9, 0, 9), (9, 9, 90), (0, 9, 0), (90, 90, 0)]
+    for lh, h1, h2 in holds:
+        for en, ef in ends.items():
+            p = peer(hold=lh, idleHold=sec(1), connRetry=sec(2))
+            b = Sb("twosess-%d-%d-%d-%s" % (lh, h1, h2, en), [p])
+            b.start()
+            c = b.establish(direction="out", hold=h1)
+            b.upd(c, [1, 1, 1, 1]).upd(c, list(range(50))).write("p1", 1, [1])
+            if min(lh, h1):
+                b.advu(sec(min(lh, h1)) // 3).ka(c)
+            ef(b, c)
+            b.adv(1)
+            c2 = b.establish(direction="out", hold=h2)
+            b.upd(c2, [2, 2, 2, 2, 2]).upd(c2, [255] * 60).write("p1", 2, [2]).write("p1", 1, [3])
+            H = min(lh, h2)
+            if H:
+                b.advu(sec(H) // 3 - 1).advu(1).ka(c2).advu(sec(H) - 1).advu(1).adv(1)
+            else:
+                b.adv(100).ka(c2).adv(300)
+                ef(b, c2)
+                b.adv(1)
+                c3 = b.establish(direction="out", hold=h1)
+                b.upd(c3, [3] * 8).adv(1)
+            out.append(b.tag("hold", "twosess", "established", "writer", "seg").build())
+    return out
+
+
+def pm_busy():
+    """The peer manager is kept busy (it waits for an FSM held in a callback) while connections arrive and
+    the application stops the peer: nothing handed to corebgp may be left open."""
+    out = []
+    Y = step("yield")
+    for how in ("delete", "close", "none"):
+        for rep in range(3):
+            b = Sb("pmbusy-%s-%d" % (how, rep), [peer(gates=["GetCapabilities#2"])])
+            b.start()
+            ci = b.connect()
+            b.open(ci)
+            co = b.dial_ok()               # the outbound FSM is now held in GetCapabilities
+            b.ka(ci)                       # inbound asks for Established: the PM starts disabling the outbound FSM and waits
+            c3 = b.newconn()
+            subs = [step("connect", conn=c3, src="10.0.0.2:40001", dst="10.0.0.1:179"), Y]
+            if how == "delete":
+                subs += [step("deletePeer", peer="p1"), Y]
+            elif how == "close":
+                subs += [step("close"), Y]
+            subs += [step("release", peer="p1", call="GetCapabilities", w=2)]
+            b.steps.append(multi(*subs))
+            b.upd(ci).adv(1)
+            out.append(b.tag("stop", "pmbusy", "adm").build())
+    # two connections from the same peer at (nearly) the same time: exactly one is served, the other closed
+    for rep in range(6):
+        b = Sb("twoconn-%d" % rep, [peer(passive=rep % 2 == 0)])
+        b.start()
+        c1, c2 = b.newconn(), b.newconn()
+        b.steps.append(multi(step("connect", conn=c1, src="10.0.0.2:40001", dst="10.0.0.1:179"),
+                             step("connect", conn=c2, src="10.0.0.2:40002", dst="10.0.0.1:179")))
+        b.adv(1)
+        out.append(b.tag("adm", "twoconn").build())
+    return out
+
+
+def fin_mid_message():
+    """C09/C12: the remote's FIN arrives inside a message (after a complete header, before the last body
+    octet; inside a header): a transport failure, silent, never a hold-down."""
+    out = []
+    for st in STATES:
+        for d in DIRS:
+            for cut in ("hdr10", "hdr19", "body1", "bodylast"):
+                m = update(list(range(30)))
+                n = {"hdr10": 10, "hdr19": 19, "body1": 20, "bodylast": len(m) - 1}[cut]
+                b = Sb("finmid-%s-%s-%s" % (st, d, cut))
+                b.start()
+                c = b.to_state(st, direction=d)
+                b.send(c, m[:n]).rclose(c).adv(1)
+                c2 = b.connect()              # no hold-down: admitted at once
+                b.open(c2).ka(c2).adv(1)
+                out.append(b.tag("cell", "nodamp", "finmid").build())
+    return out
+
+
+def gated_update_eof():
+    """C03: the handler is busy with UPDATE n while UPDATE n+1 and then a FIN / garbage arrive: n+1 is still delivered."""
+    out = []
+    for tail in ("eof", "junk", "cease"):
+        for rep in range(4):
+            b = Sb("updeof-%s-%d" % (tail, rep), [peer(gates=["Update#1"])])
+            b.start()
+            c = b.establish(direction="in")
+            b.upd(c, [1])
+            b.send(c, update([2, 2]) + ([0] * 19 if tail == "junk" else notification(6, 0) if tail == "cease" else []))
+            if tail == "eof":
+                b.rclose(c)
+            b.add("release", peer="p1", call="Update", w=1)
+            b.adv(1)
+            out.append(b.tag("seg", "gate").build())
+    return out
+
+
+def slow_callbacks():
+    """C04/C06: a callback that takes longer than the keepalive interval (held at a gate while virtual time
+    passes), then writes from inside the callback; timers that came due meanwhile are served afterwards."""
+    out = []
+    for d in DIRS:
+        for h in (3, 9):
+            for over in ("ka", "hold"):
+                # OnEstablished takes a while, then writes
+                p = peer(hold=h, gates=["OnEstablished#1"], estWrites=[[1, 2, 3]])
+                b = Sb("slowcb-onest-%s-%d-%s" % (d, h, over), [p])
+                b.start()
+                c = b.to_state("openConfirm", direction=d, hold=h)
+                b.ka(c)
+                b.advu(sec(h) // 3 + 1 if over == "ka" else sec(h) + 1)
+                b.add("release", peer="p1", call="OnEstablished", w=1)
+                b.upd(c).write("p1", 1, [9]).adv(1).ka(c).adv(1)
+                out.append(b.tag("writer", "hold", "gate").build())
+                # the update handler takes a while, then writes
+                p = peer(hold=h, gates=["Update#1"], handlerWrites={"1": [[4, 5]]})
+                b = Sb("slowcb-update-%s-%d-%s" % (d, h, over), [p])
+                b.start()
+                c = b.establish(direction=d, hold=h)
+                b.upd(c, [7])
+                b.advu(sec(h) // 3 + 1 if over == "ka" else sec(h) + 1)
+                b.add("release", peer="p1", call="Update", w=1)
+                b.upd(c).write("p1", 1, [9]).adv(1).ka(c).adv(1)
+                out.append(b.tag("writer", "hold", "gate").build())
     return out
